@@ -1,6 +1,10 @@
 # /verif build.  `make setup` builds what does not depend on /repo; engine targets rebuild
 # libsodium objects from /repo's working tree (incrementally, -MMD) on every invocation.
 B := build
+# one canonical spelling of the build directory, whether make is invoked by hand (B=build) or by ./check
+# (B=/verif/build): the -MMD dependency files name their targets with it, and a header dependency recorded
+# under one spelling is invisible under the other
+override B := $(abspath $(B))
 include mk/sodium.mk
 
 .PHONY: setup clean sodium-plain sodium-asan sodium-tsanabi
